@@ -326,6 +326,14 @@ def judge(cfg, method, aw, classes, stats=None):
                        "sum of squares" if cfg["cls"] == "Square" else "density", float(w),
                        cfg["y"][i] if method != "loss" else "...", cfg["yhat"][i] if method != "loss" else "...",
                        eff_spread(cfg)[i] if method != "loss" else "...", aw))
+    # closely fitted large counts: every entry on its own, relative to its exact value (the derivative of a near-perfect fit is
+    # tiny next to the data, an error in it is invisible on any scale taken from the whole vector)
+    if cfg.get("elementwise_rel"):
+        for i, (g, w) in enumerate(zip(vals, want)):
+            if float(w) != 0 and not abs(g - float(w)) <= cfg["elementwise_rel"] * abs(float(w)):
+                return ("%s:value-elementwise" % name, "%s entry %d is %.17g, the exact value is %.17g (relative error %.3g; y=%r, yhat=%r, spread=%r)"
+                        % (name, i, g, float(w), abs(g - float(w)) / abs(float(w)), cfg["y"][i] if method != "loss" else "...",
+                           cfg["yhat"][i] if method != "loss" else "...", eff_spread(cfg)[i] if method != "loss" else "..."))
     # the kernels are functions of (y, yhat, spread): evaluating the other methods on the same object in between
     # must not change the answer (no hidden state, no aliasing of the stored spread / data)
     for m2 in ("diff2Loss", "diff_loss", "loss"):
@@ -501,8 +509,9 @@ def run(ck):
     # counts in the millions fitted to within a count or two (a solution against its own rounded values), small and large k
     for kk in (0.05, 0.5, 5.0):
         cfgs.append(dict(cls="NegBinom", layout="vec", dims=[4], y=[1203456.0, 2500001.0, 730000.0, 999999.0],
-                         yhat=[1203456.4, 2499998.7, 730000.35, 1000001.2], spread_form="float", spread=kk))
-    cfgs.append(dict(cls="Poisson", layout="vec", dims=[3], y=[1203456.0, 2500001.0, 730000.0], yhat=[1203456.4, 2499998.7, 730000.35]))
+                         yhat=[1203456.4, 2499998.7, 730000.35, 1000001.2], spread_form="float", spread=kk, elementwise_rel=1e-6))
+    cfgs.append(dict(cls="Poisson", layout="vec", dims=[3], y=[1203456.0, 2500001.0, 730000.0], yhat=[1203456.4, 2499998.7, 730000.35],
+                     elementwise_rel=1e-6))
     # precise Gamma data and a prediction off by a factor of three; weights that average to one
     cfgs.append(dict(cls="Gamma", layout="vec", dims=[3], y=[3.0, 5.0, 2.0], yhat=[9.0, 1.7, 6.0], spread_form="float", spread=1000.0))
     for cls in ("Square", "Normal"):
